@@ -1006,6 +1006,31 @@ func (x *Exec) frameStore(target ast.Expr, b Sl, i string, st *State, pos token.
 	}
 	ev, wasParam := x.entry.vars[pv]
 	if !wasParam || !x.isParam(pv) {
+		// a local slice: if its backing array is a term over the storage a slice parameter held on entry (c := p[1:]; c[0] = v),
+		// the same frame condition applies, relative to that parameter's original contents
+		if x.depth == 0 {
+			if arr, ok := b.Arr.(Sc); ok {
+				for eobj, pev := range x.entry.vars {
+					ppv, ok := eobj.(*types.Var)
+					if !ok || !x.isParam(ppv) {
+						continue
+					}
+					pes, ok := pev.(Sl)
+					if !ok {
+						continue
+					}
+					pa, ok := pes.Arr.(Sc)
+					if !ok || !x.c.isArrayConst(pa.T) || !containsToken(arr.T, pa.T) {
+						continue
+					}
+					if x.contract != nil && x.contract.Modifies[ppv.Name()] {
+						continue
+					}
+					x.c.oblige("frame:"+ppv.Name(), "", st.pc, tGe(tAdd(b.Off, i), tAdd(pes.Off, pes.Len)), pos,
+						fmt.Sprintf("store through %s, which shares the storage of parameter %s, stays outside the parameter's original contents", id.Name, ppv.Name()))
+				}
+			}
+		}
 		return
 	}
 	if x.contract != nil && x.contract.Modifies[id.Name] {
@@ -1017,6 +1042,24 @@ func (x *Exec) frameStore(target ast.Expr, b Sl, i string, st *State, pos token.
 	}
 	x.c.oblige("frame:"+id.Name, "", st.pc, tGe(tAdd(b.Off, i), tAdd(es.Off, es.Len)), pos,
 		fmt.Sprintf("store into parameter %s stays outside its original contents", id.Name))
+}
+
+// containsToken: name occurs in term as a whole SMT symbol.
+func containsToken(term, name string) bool {
+	isSym := func(c byte) bool {
+		return c == '!' || c == '.' || c == '_' || (c >= '0' && c <= '9') || (c >= 'a' && c <= 'z') || (c >= 'A' && c <= 'Z')
+	}
+	for i := strings.Index(term, name); i >= 0; {
+		if (i == 0 || !isSym(term[i-1])) && (i+len(name) == len(term) || !isSym(term[i+len(name)])) {
+			return true
+		}
+		j := strings.Index(term[i+1:], name)
+		if j < 0 {
+			break
+		}
+		i += 1 + j
+	}
+	return false
 }
 
 func (x *Exec) isParam(v *types.Var) bool {
